@@ -1,6 +1,8 @@
 package litefs
 
 import (
+	"bytes"
+	"context"
 	"encoding/binary"
 
 	rt "github.com/superfly/litefs/internal/verifrt"
@@ -80,3 +82,39 @@ func VerifLTXNames(db *DB) []string { return verifLTXNames(db) }
 
 // VerifImageBytes: a valid database image of n pages (symbolic content).
 func VerifImageBytes(tag string, n int, wal bool) []byte { return verifJoin(verifImage(tag, n, wal)) }
+
+// VerifReplicaApply feeds one transaction file to the replica's stream handler.
+func VerifReplicaApply(s *Store, file []byte) error {
+	return s.processLTXStreamFrame(context.Background(), &LTXStreamFrame{Name: "db"}, bytes.NewReader(file))
+}
+
+// VerifEncodePage1Tx: a transaction file extending db's position that rewrites page 1 with symbolic content.
+func VerifEncodePage1Tx(db *DB) ([]byte, [][]byte, ltx.Pos) {
+	pos0 := db.Pos()
+	n := int(db.PageN())
+	p := rt.Bytes("repl", verifP)
+	verifHeaderPage(p, uint32(n), db.Mode() == DBModeWAL)
+	img := (&verifWorld{db: db, store: db.store}).verifReadImage()
+	img[0] = p
+	post := verifSpecChecksum(img)
+	hdr := ltx.Header{PageSize: verifP, Commit: uint32(n), MinTXID: pos0.TXID + 1, MaxTXID: pos0.TXID + 1, PreApplyChecksum: pos0.PostApplyChecksum, NodeID: 99}
+	return verifEncodeLTX(hdr, []uint32{1}, [][]byte{p}, post), img, ltx.Pos{TXID: pos0.TXID + 1, PostApplyChecksum: post}
+}
+
+// VerifInvalidations returns the invalidation calls recorded so far (world invalidator).
+func VerifInvalidations(s *Store) []string {
+	var out []string
+	if inv, ok := s.Invalidator.(*verifInvalidator); ok {
+		for _, c := range inv.calls {
+			out = append(out, c.kind)
+		}
+	}
+	return out
+}
+
+// VerifEncodeDropTx: the tombstone transaction a primary's drop produces, extending db's position.
+func VerifEncodeDropTx(db *DB) []byte {
+	pos0 := db.Pos()
+	hdr := ltx.Header{PageSize: verifP, Commit: 0, MinTXID: pos0.TXID + 1, MaxTXID: pos0.TXID + 1, PreApplyChecksum: pos0.PostApplyChecksum, NodeID: 99}
+	return verifEncodeLTX(hdr, nil, nil, ltx.ChecksumFlag)
+}
